@@ -268,6 +268,9 @@ func runSerial(w *tracelog.Writer, seed int64, traces, ops int) error {
 		// bursts: the same entry is reported fruitless / alive several times in a row (failure counter, credit)
 		burstKind, burstLeft := "", 0
 		var burstID enode.ID
+		// aftermath of a burst of fruitless queries: the same record is seen again, then answers a query
+		var burstRec *enode.Node
+		aftermath := 0
 		for step := 0; step < ops; step++ {
 			op := map[string]any{"name": "", "id": -1, "inbound": false, "seq": 0, "net": -2, "ip": -1, "port": 0, "alive": false, "credit": 0,
 				"ok": false, "fails": 0, "nb": 0, "found": []int{}, "newrec": false, "isentry": false, "ld": 0}
@@ -307,6 +310,14 @@ func runSerial(w *tracelog.Writer, seed int64, traces, ops int) error {
 					return false
 				}
 				k := rng.Intn(100)
+				if aftermath > 0 && burstLeft == 0 && burstRec != nil {
+					if aftermath == 2 {
+						k = 0 // addFound
+					} else {
+						k = 90 // track
+					}
+					rec = burstRec
+				}
 				if burstLeft > 0 {
 					burstLeft--
 					if burstKind == "track" {
@@ -385,8 +396,15 @@ func runSerial(w *tracelog.Writer, seed int64, traces, ops int) error {
 								target = mkNode(e.ID, e.IP, e.UDP, e.Seq)
 								ok = rng.Intn(12) == 0
 								op["ok"] = ok
+								burstRec = target
+								if burstLeft == 1 && rng.Intn(2) == 0 {
+									aftermath = 3
+								}
 							}
 						}
+					} else if aftermath == 1 && burstRec != nil {
+						target, ok = burstRec, true
+						op["ok"] = ok
 					}
 					setRec(target)
 					op["nb"], op["isentry"] = len(bucketOf(target.ID()).Entries), isEntry(target.ID())
@@ -411,6 +429,9 @@ func runSerial(w *tracelog.Writer, seed int64, traces, ops int) error {
 					vt.LoadSeeds()
 				}
 			}()
+			if aftermath > 0 && burstLeft == 0 {
+				aftermath--
+			}
 			cur := wd.snapshot(vt)
 			w.Emit(map[string]any{"ev": "op", "t": t, "op": op, "ch": diff(prev, cur), "panic": panicked})
 			prev = cur
